@@ -50,6 +50,8 @@ func C10(c *Ctx) {
 
 	// (3) method table
 	c.logoutMethodTable()
+	c.routerDispatch("C10.method")
+	c.logoutHooks("C10.hooks")
 
 	// (4) inventory
 	keys := map[string]bool{}
@@ -297,4 +299,131 @@ func (c *Ctx) logoutClear(rule, ruleErr string, cookieOnly bool) bool {
 	}
 
 	return true
+}
+
+// routerDispatch: the default router serves a request from the table its
+// method's registration function fills, and from no other: a route
+// registered with Get is reachable by GET only. (Logout "only reacts to the
+// configured HTTP method" rests on this once the route sits in one table.)
+func (c *Ctx) routerDispatch(rule string) {
+	r := c.R
+	serve := c.P.FuncOpt("(*ab/defaults.Router).ServeHTTP")
+	if serve == nil {
+		return // default router absent
+	}
+	name := FuncName(serve)
+	table := map[string]string{} // field -> HTTP method
+	for meth, fnm := range map[string]string{"GET": "Get", "POST": "Post", "DELETE": "Delete"} {
+		reg := c.P.FuncOpt("(*ab/defaults.Router)." + fnm)
+		if reg == nil {
+			r.Unknown(rule, name, "Router."+fnm, "-", "registration method not found")
+			return
+		}
+		fld := ""
+		for _, call := range Calls(reg) {
+			if strings.HasSuffix(Callee(call), "ServeMux).Handle") {
+				fld = fieldLoadName(Arg(call, 0))
+			}
+		}
+		if fld == "" {
+			r.Unknown(rule, FuncName(reg), "table", "-", "the table this registration method fills was not recognised")
+			return
+		}
+		if prev, dup := table[fld]; dup {
+			r.Bad(rule, FuncName(reg), "table "+fld, c.P.Pos(reg.Pos()), "Router."+fnm+" fills the same table as the "+prev+" registrations: routes become reachable by both methods")
+		}
+		table[fld] = meth
+	}
+	n := 0
+	for _, b := range serve.Blocks {
+		for _, in := range b.Instrs {
+			ld, ok := in.(*ssa.UnOp)
+			if !ok {
+				continue
+			}
+			fld := fieldLoadName(ld)
+			meth, isTable := table[fld]
+			if !isTable {
+				continue
+			}
+			n++
+			okSel := HasFact(FactsAtInstr(ld), func(f Fact) bool {
+				rel := f.Rel()
+				if rel.Op != token.EQL || fieldLoadName(rel.X) != "Method" {
+					return false
+				}
+				s, isC := ConstStr(rel.Y)
+				return isC && s == meth
+			})
+			r.Check(okSel, rule, name, "table "+fld+" only for "+meth, posf(c, ld), "selected under req.Method == "+meth, "the table filled by Router."+strings.Title(strings.ToLower(meth))+" is served without req.Method == \""+meth+"\" being established: routes registered for "+meth+" (logout among them when LogoutMethod is "+meth+") answer other methods too")
+		}
+	}
+	if n < len(table) {
+		r.Unknown(rule, name, "dispatch", "-", sprintf("only %d of %d tables are selected in ServeHTTP by a recognisable field load", n, len(table)))
+	}
+}
+
+// logoutHooks: logout must work from every session state, including the
+// states in which no user can be loaded (pending second factor, OAuth2 under
+// way, expired session, deleted account). A handler the library itself hangs
+// on EventLogout therefore must not fail for want of a current user: its
+// error makes Logout return an error instead of the logout response.
+func (c *Ctx) logoutHooks(rule string) {
+	r := c.R
+	ev := c.Event("EventLogout")
+	n := 0
+	for _, before := range []bool{true, false} {
+		for _, w := range c.Handlers(before, ev) {
+			if strings.HasSuffix(pkgOf(w.In), "/mocks") {
+				continue
+			}
+			n++
+			phase := map[bool]string{true: "Before", false: "After"}[before]
+			if w.Handler == nil {
+				r.Unknown(rule, FuncName(w.In), phase+"(EventLogout)", posf(c, w.Call), "handler value could not be resolved to a function")
+				continue
+			}
+			h := w.Handler
+			hn := FuncName(h)
+			bad, at := "", "-"
+			for _, call := range Calls(h) {
+				switch Callee(call) {
+				case fnCurrentUserP, fnLoadCurrentUserP, "(*ab.Authboss).CurrentUserIDP", "(*ab.Authboss).LoadCurrentUserIDP":
+					bad, at = Callee(call)+" panics when the session names no loadable user", posf(c, call)
+				case fnCurrentUser, fnLoadCurrentUser:
+					e := ErrResult(call)
+					if e == nil {
+						continue
+					}
+					for _, b := range h.Blocks {
+						ret, ok := b.Instrs[len(b.Instrs)-1].(*ssa.Return)
+						if !ok || len(ret.Results) == 0 {
+							continue
+						}
+						rv := ret.Results[len(ret.Results)-1]
+						if !carriesErr(e, rv, 0) {
+							continue
+						}
+						// tolerated when ErrUserNotFound was filtered out before
+						filtered := HasFact(FactsAtInstr(ret), func(f Fact) bool {
+							rel := f.Rel()
+							if rel.Op != token.NEQ || rel.X != e {
+								return false
+							}
+							g := loadOfGlobal(rel.Y)
+							return g != nil && g.Name() == "ErrUserNotFound"
+						})
+						if !filtered {
+							bad, at = "the error of "+Callee(call)+" (ErrUserNotFound when nobody is logged in) is returned", posf(c, ret)
+						}
+					}
+				}
+			}
+			r.Check(bad == "", rule, hn, phase+"(EventLogout) handler works without a user", at, "does not depend on a loadable current user", "a handler registered on "+phase+"(EventLogout) fails when no user can be loaded: "+bad+"; logging out of a pending-2FA, OAuth2-in-progress or expired session then ends in an error instead of the logout response")
+		}
+	}
+	r.Extra["library_logout_hooks"] = n
+	if n == 0 {
+		r.Info(rule, "-", "EventLogout handlers", "-", "the library registers no handler on EventLogout (reference: 0); integrator handlers are not decided")
+	}
 }
